@@ -465,7 +465,7 @@ class Generator:
                         if c2 == "endfn":
                             break
                         if c2 in ("sig", "loop", "body-start", "body-end", "loop-start", "loop-end",
-                                  "before", "after", "replace-type", "decl", "closure", "opaque-closure", "desugar-for", "desugar-tuple-assign"):
+                                  "before", "after", "replace-type", "decl", "closure", "opaque-closure", "desugar-for", "desugar-tuple-assign", "drop-stmt"):
                             cur = {"cmd": c2, "arg": a2, "lines": [], "line0": j + 2}
                             sections.append(cur)
                         else:
@@ -1112,16 +1112,37 @@ class Generator:
                 else:
                     ed.insert(s[hi_].start, "\n" + body + "\n", 1)
             elif sec["cmd"] in ("before", "after"):
-                am = re.match(r"/(.*)/\s*$", sec["arg"])
+                am = re.match(r"/(.*)/(?:\s+nth=(\d+))?\s*$", sec["arg"])
                 rx = re.compile(am.group(1))
+                nth = int(am.group(2) or 1)
                 ipos = None
+                cnt = 0
                 for lm in re.finditer(r"[^\n]*\n", text[pos_from:pos_to]):
                     if rx.search(lm.group(0)):
-                        ipos = pos_from + (lm.start() if sec["cmd"] == "before" else lm.end())
-                        break
+                        cnt += 1
+                        if cnt == nth:
+                            ipos = pos_from + (lm.start() if sec["cmd"] == "before" else lm.end())
+                            break
                 if ipos is None:
-                    raise LostAnchor("%s: anchor /%s/ not found in slice %s" % (file, am.group(1), name))
+                    raise LostAnchor("%s: anchor /%s/ (nth=%d) not found in slice %s" % (file, am.group(1), nth, name))
                 ed.insert(ipos, body + "\n", 1)
+            elif sec["cmd"] == "drop-stmt":
+                # R16: every one-line statement of the slice that matches the regex is removed (stated
+                # per use: wall-clock statistics - `Instant::now()` / `elapsed()` - that no contract speaks about)
+                am = re.match(r"/(.*)/\s*$", sec["arg"])
+                rx = re.compile(am.group(1))
+                n_dropped = 0
+                for lm in re.finditer(r"[^\n]*\n", text[pos_from:pos_to]):
+                    ln = lm.group(0)
+                    if rx.search(ln):
+                        st = ln.strip()
+                        if not st.endswith(";") or st.count("{") != st.count("}"):
+                            raise SpecError("%s: //@drop-stmt /%s/ matches a line that is not a one-line statement: %r" % (rel, am.group(1), st))
+                        ed.replace(pos_from + lm.start(), pos_from + lm.end(), "\n", 1)
+                        n_dropped += 1
+                if n_dropped == 0:
+                    raise LostAnchor("%s: //@drop-stmt /%s/ matches nothing in slice %s" % (file, am.group(1), name))
+                rules["R16"] = rules.get("R16", 0) + n_dropped
             elif sec["cmd"] == "closure":
                 # R11 inside a slice (same rule as in //@fn)
                 n = int(sec["arg"].split()[0])
